@@ -251,9 +251,19 @@ def rule_token_errors(prog):
             out.add(b["d"], "Token{range: .., ..old} also relocates `errors`", "errors" in names, c.loc(s["sp"]),
                     "the token's range is replaced but its lexical errors (which carry absolute byte ranges) are "
                     "copied unchanged from the old token")
+        # field-assignment form: `tok.range = ..` without `tok.errors = ..` in the same function
+        assigns = {}
+        for a in hir.nodes(b["body"], "Assign"):
+            l = hir.strip(a["l"])
+            if l.get("k") == "Field" and hir.adt_path(c, l["base"]["t"]) == TOK:
+                assigns.setdefault(place(l["base"]), set()).add(l["name"])
+        for pl, names in assigns.items():
+            if "range" in names:
+                n += 1
+                out.add(b["d"], "assigning Token.range also relocates `errors`", "errors" in names, c.loc(b["sp"]),
+                        "the token's range is overwritten but its lexical errors keep their old absolute ranges")
     if n == 0:
-        # after a repair the struct-update form may be gone; look for functions that relocate tokens
-        out.note("no `Token{range, ..base}` literal found")
+        out.missing("places that relocate a Token (struct update or field assignment)")
     return out
 
 
@@ -692,7 +702,12 @@ def rule_eof_once(prog):
         es = arr.get("es", [])
         if es:
             tail = es[-1]
-            locs = [n for n in hir.nodes(tail, "Path") if n["res"].get("k") == "Local" and n["res"]["name"] == "eof"]
+            popped = set()
+            for l in hir.nodes(upd["body"], "Let"):
+                if l.get("init") is not None and any(x["m"] == "pop" for x in hir.nodes(l["init"], "MethodCall")):
+                    for bd in hir.pat_bindings(l["pat"]):
+                        popped.add(bd["id"])
+            locs = [n for n in hir.nodes(tail, "Path") if n["res"].get("k") == "Local" and n["res"]["id"] in popped]
             ok = bool(locs)
     out.add("lexer::update", "old Eof is popped once and re-appended last", len(pops) == 1 and ok, c.loc(upd["sp"]),
             "%d pop(), concat ends with eof: %s" % (len(pops), ok))
